@@ -255,6 +255,25 @@ func runC03(c *Ctx) {
 			}
 		}
 	}
+	// D4x: a two-byte atom, so that a capture made on an abandoned path holds text the match that is
+	// finally reported does not contain (the "variable is a substring of the value" clause)
+	g4x := &Gram{Atoms: []*T{lit("ab"), lit("a"), lit("b")}, Or: true, Cap: true, Loops: []LoopKind{{0, 1, false}, {0, -1, true}}}
+	for n := 4; n <= c.Pick(6, 6); n++ {
+		if !c.Level("D4x:n=" + itoa(n)) {
+			return
+		}
+		for _, raw := range g4x.Seqs(n) {
+			body := instantiate(raw, true)
+			if body == nil {
+				continue
+			}
+			src := renderSeq(body)
+			if c.Unit(func() string { return src }) {
+				c.Count("programs", 1)
+				shapeUnit(c, src, "", tab, c03Heads[:1], false)
+			}
+		}
+	}
 	g1 := gramD1()
 	for n := 1; n <= c.Pick(3, 4); n++ {
 		if !c.Level("D1:n=" + itoa(n)) {
